@@ -559,7 +559,11 @@ def run(ctx):
             pawn_quiets(ctx, f)
         cells += audit_sliders(ctx, f, "magic" if cfg != "C" else "pext")
     ctx.extra["cells_audited"] = cells
-    ctx.extra["exhaustive"] = True
+    # tables, accessors, slider index and pawn pushes are complete over their domains in both tiers; the const walkers
+    # are run for 16 representative squares in the quick tier and for all 64 in the thorough tier
+    ctx.extra["exhaustive"] = ctx.tier == "thorough"
+    if ctx.tier != "thorough":
+        ctx.note("quick tier: const ray walkers audited for the 16 squares {a,d,e,h} x {1,4,5,8}; the thorough tier covers all 64")
     ctx.assumptions += [
         "rustc's const evaluator and cargo's execution of build.rs produced the table bytes that the compiled library contains",
         "for the pext configuration: _pext_u64 is the parallel bit extract modelled in cva/geom.py",
